@@ -102,7 +102,7 @@ Inductive qstate := QIdle | QData (k : nat) | QAccepted | QDone | QFailed.
 
 Definition queue_step (e : event) (q : qstate) : option qstate :=
   match e, q with
-  | Note (NData k), QIdle => Some (QData k)
+  | Note (NData k), QIdle => if qq_nostart (o_qq o k) then None else Some (QData k)     (* no 354 when the queue could not be started *)
   | Note (NData _), _ => None
   | Handoff _ _, QData k => match o_qq o k with QQ_ok => Some QAccepted | _ => None end
   | Handoff _ _, _ => None
